@@ -19,6 +19,24 @@ def chars(s):
     return '[' + ', '.join(one(c) for c in s) + ']'
 
 
+def _other_definitions(builtin):
+    """`builtin.other_units`; when the module no longer has a list of that name (it was split or renamed), every module-level
+    list of (name, definition string) pairs other than the derived SI units, in the order the module defines them — the
+    order of registration as far as the module's names show it (the database itself is compared name by name anyway)"""
+    if hasattr(builtin, 'other_units'):
+        return builtin.other_units
+    out, seen = [], set()
+    skip = {id(getattr(builtin, 'derived_SI_units', None))}
+    for k, v in vars(builtin).items():
+        if isinstance(v, (list, tuple)) and id(v) not in skip and v and all(
+                isinstance(x, (list, tuple)) and len(x) == 2 and all(isinstance(y, str) for y in x) for x in v):
+            for a, b in v:
+                if a not in seen:
+                    seen.add(a)
+                    out.append((a, b))
+    return out
+
+
 def live():
     """the live tables (also used by the harnesses)"""
     with contextlib.redirect_stdout(io.StringIO()):
@@ -30,7 +48,7 @@ def live():
         'prefixes': [(str(k), float(v)) for k, v in db.UnitsDB.prefixes.items()],
         'base': [(str(a), float(b), str(c)) for a, b, c in builtin.base_SI_units],
         'derived': [(str(a), str(b)) for a, b in builtin.derived_SI_units],
-        'other': [(str(a), str(b)) for a, b in builtin.other_units],
+        'other': [(str(a), str(b)) for a, b in _other_definitions(builtin)],
         'primitive': prim,
         'threshold': float(qty.FundamentalUnits.THRESHOLD_INTEGER),
         'db_names': [str(k) for k in db.units_db.db.keys()],
